@@ -6,7 +6,24 @@ import json
 import signal
 import sys
 
-from nada_dsl.audit.report import parse, type_to_str
+from nada_dsl.audit.report import parse
+
+def show_type(t):
+    """the harness's own spelling of an inferred type (independent of the report's type_to_str):
+    classes by name, list[T] recursively, type errors by their message"""
+    import types as _types
+    if isinstance(t, TypeError):
+        return "TypeError: " + str(t)
+    if isinstance(t, _types.GenericAlias) and t.__origin__ is list:
+        return "list[" + show_type(t.__args__[0]) + "]"
+    if isinstance(t, type):
+        return t.__name__
+    import typing as _typing, collections.abc as _abc
+    if _typing.get_origin(t) is _abc.Callable:
+        return "Callable"      # the type given to a defined function's name
+    return "TypeError: type cannot be determined"
+
+
 from nada_dsl.audit.common import SyntaxRestriction, RuleInAncestor, TypeInParent
 import nada_dsl.audit as audit_pkg
 S = sys.modules["nada_dsl.audit.strict"]
@@ -92,7 +109,7 @@ def run_one(src):
             nerr += 1
         if isinstance(n, ast.expr) and hasattr(n, "lineno") and t is not None and not isinstance(t, (TypeError, TypeInParent)) \
                 and not isinstance(r, (SyntaxRestriction, RuleInAncestor)):
-            static[key(n)] = type_to_str(t)
+            static[key(n)] = show_type(t)
     rec["static"] = static
     rec["type_errors"] = nerr
     rec["restrictions"] = nrestr
